@@ -99,4 +99,42 @@ theorem results_foldl (d : Doc) (ls : List (Line × Nat)) (ops : List Op) (s : S
       cases h : importOnce d ls i <;> simp [h]
     | edit k e => simp [importsOf, Session.step]
 
+/-! ## lines no loop reacts to -/
+
+theorem stepCore_norm (s : Core) (l : Line) : stepCore s l.norm = stepCore s l := by
+  cases l with
+  | opn t id => cases t <;> rfl
+  | cls t => cases t <;> rfl
+  | _ => rfl
+
+theorem isCall_norm (s : Core) (l : Line) : isCall s l.norm = isCall s l := by
+  cases l with
+  | opn t id => cases t <;> rfl
+  | cls t => cases t <;> rfl
+  | _ => rfl
+
+theorem step_norm (cb : Nat → Bool) (s : St) (ln : Line × Nat) : step cb s (ln.1.norm, ln.2) = step cb s ln := by
+  unfold step
+  simp only [isCall_norm, stepCore_norm]
+
+theorem runS_norm (cb : Nat → Bool) (ls ls' : List (Line × Nat)) (s : St)
+    (h : ls.map (fun ln => (ln.1.norm, ln.2)) = ls'.map (fun ln => (ln.1.norm, ln.2))) :
+    runS cb s ls = runS cb s ls' := by
+  induction ls generalizing ls' s with
+  | nil =>
+    cases ls' with
+    | nil => rfl
+    | cons _ _ => simp at h
+  | cons a r ih =>
+    cases ls' with
+    | nil => simp at h
+    | cons b r' =>
+      simp only [List.map_cons, List.cons.injEq] at h
+      obtain ⟨hab, hr⟩ := h
+      have : step cb s a = step cb s b := by
+        rw [← step_norm cb s a, ← step_norm cb s b, hab]
+      unfold runS at ih ⊢
+      simp only [List.foldl_cons, this]
+      exact ih r' _ hr
+
 end Pew.FastParse
